@@ -252,13 +252,10 @@ def run(ctx):
     for (api, seed, combo), what in bad[:3]:
         cands.append(("C45 seq api=%s seed=%d calls=%s" % (api, seed, ",".join(combo)), what,
                       {"type": "seq", "api": api, "seed": seed, "calls": list(combo)}))
-    # 1. whole-space sweeps, bound by bound
-    for bi, bound in enumerate(int_plan(ctx.quick)):
-        need = last * len(bound) * 1.1
-        if cov["bounds_not_started"] or (bi > 0 and ctx.deadline.left() < need):
-            cov["bounds_not_started"].append("integer ranges, offset #%d (%d ranges)" % (bi + 1, len(bound)))
-            exhaustive = False
-            continue
+    # 1. whole-space sweeps, bound by bound: every range size at its first offset, then the real intervals, then the
+    #    other offsets
+    def int_bound(bi, bound):
+        nonlocal swept, rejected_total, last, cands
         for mn, mx in bound:
             t0 = time.time()
             j = sweep(binp, "sweep_int", str(mn), str(mx))
@@ -270,21 +267,33 @@ def run(ctx):
                                       "preimages_per_value": (j["count_min"] if j["counted"] else j["L"] // j["R"]),
                                       "method": "counted" if j["counted"] else "prefix+mod structure", "wall_s": round(last, 1)})
             common.log("C45 uniform_int(%d,%d): %d accepted, %d rejected, %.1fs" % (mn, mx, j["accepted"], j["rejected"], last))
-    for mn, mx in real_plan(ctx.quick):
-        if cov["bounds_not_started"] or ctx.deadline.left() < last * 1.1 and cov["real_sweeps"]:
-            cov["bounds_not_started"].append("uniform_real(%r,%r)" % (mn, mx))
+
+    def real_bound(intervals):
+        nonlocal swept, rejected_total, last, cands
+        for mn, mx in intervals:
+            t0 = time.time()
+            j = sweep(binp, "sweep_real", mn.hex(), mx.hex())
+            last = time.time() - t0
+            swept += M32
+            rejected_total += j["rejected"]
+            cands += judge_real(j, mn, mx)
+            cov["real_sweeps"].append({"min": mn, "max": mx, "lowest": float.fromhex(j["lowest"]) if j["out_of_range"] < M32 else None,
+                                       "highest": float.fromhex(j["highest"]) if j["out_of_range"] < M32 else None,
+                                       "equal_to_max": j["equal_to_max"], "rejected": j["rejected"], "wall_s": round(last, 1)})
+            common.log("C45 uniform_real(%r,%r): %.1fs" % (mn, mx, last))
+
+    ib = int_plan(ctx.quick)
+    bounds = [("integer ranges, offset #1 (%d ranges)" % len(ib[0]), lambda: int_bound(0, ib[0]), len(ib[0])),
+              ("real intervals (%d)" % len(real_plan(ctx.quick)), lambda: real_bound(real_plan(ctx.quick)), len(real_plan(ctx.quick)))]
+    for k in range(1, len(ib)):
+        bounds.append(("integer ranges, offset #%d (%d ranges)" % (k + 1, len(ib[k])), (lambda k=k: int_bound(k, ib[k])), len(ib[k])))
+    for bi, (name, fn, n) in enumerate(bounds):
+        if cov["bounds_not_started"] or (bi > 0 and ctx.deadline.left() < last * n * 1.1):
+            cov["bounds_not_started"].append(name)
             exhaustive = False
             continue
-        t0 = time.time()
-        j = sweep(binp, "sweep_real", mn.hex(), mx.hex())
-        last = time.time() - t0
-        swept += M32
-        rejected_total += j["rejected"]
-        cands += judge_real(j, mn, mx)
-        cov["real_sweeps"].append({"min": mn, "max": mx, "lowest": float.fromhex(j["lowest"]) if j["out_of_range"] < M32 else None,
-                                   "highest": float.fromhex(j["highest"]) if j["out_of_range"] < M32 else None,
-                                   "equal_to_max": j["equal_to_max"], "rejected": j["rejected"], "wall_s": round(last, 1)})
-        common.log("C45 uniform_real(%r,%r): %.1fs" % (mn, mx, last))
+        fn()
+        cov.setdefault("bounds_completed", []).append(name)
     # confirmation: each case alone, twice
     violations = []
     for key, what, case in cands[:8]:
